@@ -409,7 +409,7 @@ class Check:
         if unexplained:
             c0 = unexplained[0]
             self.broken.append('correspondence: %d of %d cases disagree (clauses: %s); smallest: %s  impl=%s  model=%s' % (
-                len(unexplained), len(self.cases), sorted({c.clause for c in unexplained})[:12], c0.line[:300], c0.impl[:200], (c0.model or '')[:200]))
+                len(unexplained), len(getattr(self, 'cases', [])), sorted({c.clause for c in unexplained})[:12], c0.line[:300], c0.impl[:200], (c0.model or '')[:200]))
         for k, f in sorted(seen_known.items()):
             print('KNOWN-FINDING: property=%s %s — %s' % (self.pid, k, known[k].get('what', f.what)))
         rdir = os.path.join(VERIF, 'replays', self.pid)
@@ -459,11 +459,27 @@ class Check:
         json.dump(ev, open(p + '.tmp', 'w'), indent=1, default=str)
         os.replace(p + '.tmp', p)
 
+    def guarded(self, step, name):
+        """A harness step that cannot digest what the implementation did (wrong shapes, unexpected types, an exception
+        outside `common.call`) is a correspondence that no longer checks - a broken tie, reported as such (exit 1,
+        no-failing-input-found unless the oracle shows an input) - not an infrastructure failure: on the unchanged tree
+        every step runs through, so the cause is the change under test.  Infra (lake, driver, timeouts) stays exit 2."""
+        try:
+            step()
+        except Infra:
+            raise
+        except Exception as e:  # noqa
+            tb = traceback.extract_tb(e.__traceback__)
+            where = ' <- '.join('%s:%d %s' % (os.path.basename(f.filename), f.lineno, f.name) for f in tb[-4:][::-1])
+            self.broken.append('correspondence: the %s step could not process the implementation\'s behaviour: %s: %s  [%s]' % (
+                name, type(e).__name__, str(e)[:300], where))
+            self.log('STEP FAILED', name, type(e).__name__, str(e)[:200], where)
+
     def run(self):
         self.fails = []
         self.step_lean()
-        self.step_correspondence()
-        self.step_oracle()
+        self.guarded(self.step_correspondence, 'correspondence')
+        self.guarded(self.step_oracle, 'oracle')
         rc = self.decide()
         self.evidence()
         self.log('exit', rc)
